@@ -1,7 +1,7 @@
 (* kind "repair": the model of repair-on-open (coq/RepairModel.v rp_open, extracted) on a file image.
    Input line  = <path of the image file> [<n>]     n = number of consecutive opens (default 2)
    Output line = one group per open, groups separated by " || ":
-       rc:<rc>|fault:<code>|did:<bit 0: repair branch entered, bit 1: rp_uninit_ppl>|len:<bytes>|hash:<fnv64 of the file afterwards>|<entry>|<entry>|...
+       rc:<rc>|fault:<code>|did:<bit 0: repair branch entered, bit 1: rp_uninit_ppl, bit 2: the END chunk was written at rp_end_off <> end of file>|len:<bytes>|hash:<fnv64 of the file afterwards>|<entry>|<entry>|...
      entries   = the model's backend events in the `logdump` text format: `t <len>`, `w <offset> <hex>`, `s`
    Each further open runs on the file the previous one left.
    The float oracles summ1/summN are the ones of drv_wmodel.ml (same trusted glue). *)
@@ -37,7 +37,8 @@ let () = register "repair" (fun ic ->
           let r = rp_open wm_summ1 wm_summN !f in
           let (len, h) = rp_hash r.rp_after in
           Buffer.add_string buf (Printf.sprintf "rc:%d|fault:%d|did:%d|len:%d|hash:%016Lx"
-            (wm_int_of_n r.rp_rc) (wm_int_of_n r.rp_fault) ((if r.rp_did then 1 else 0) + (if r.rp_uninit_ppl then 2 else 0)) len h);
+            (wm_int_of_n r.rp_rc) (wm_int_of_n r.rp_fault) ((if r.rp_did then 1 else 0) + (if r.rp_uninit_ppl then 2 else 0)
+             + (let eo = wm_int_of_n r.rp_end_off in if eo <> 0 && eo + 32 <> len then 4 else 0)) len h);
           List.iter (fun e -> Buffer.add_char buf '|'; wm_print_entry buf false e) r.rp_events;
           f := r.rp_after
         done
